@@ -20,6 +20,9 @@ Ltac Zify.zify_post_hook ::= Z.to_euclidean_division_equations.
 Definition pow2cap (cap : Z) : Prop := exists k, 0 <= k <= 31 /\ cap = 2 ^ k.
 (* values of muggle_sync_t fields, locals and atomic cells *)
 Definition u32 (x : Z) : Prop := 0 <= x < 4294967296.
+(* ring positions: alloc_idx / free_idx / cached_free_pos of the ts pool, cached_free_pos of the sowr pool and the
+   cursor of the ring pool are always masked with capacity - 1 *)
+Definition pos_in (cap x : Z) : Prop := 0 <= x < cap.
 
 Definition pow2_list : list Z :=
   [1; 2; 4; 8; 16; 32; 64; 128; 256; 512; 1024; 2048; 4096; 8192; 16384; 32768; 65536; 131072; 262144;
@@ -99,12 +102,45 @@ Ltac norm_blkidx CAP :=
 
 Ltac unfold_leaf :=
   cbv beta zeta;
-  unfold wrapu, Leaf.crem, cdiv, b2z, z2b, two32, u32 in *;
+  unfold wrapu, Leaf.crem, cdiv, b2z, z2b, two32, u32, pos_in in *;
   change (2 ^ 32) with 4294967296 in *; change (2 ^ 64) with 18446744073709551616 in *.
 
 Lemma lfill_ext_n : forall l n n' fi fv fi' fv', n = n' ->
   (forall i, 0 <= i < n -> fi i = fi' i /\ fv i = fv' i) -> lfill l n fi fv = lfill l n' fi' fv'.
 Proof. intros; subst; apply lfill_ext; assumption. Qed.
+
+(* ((a ^ b) & mask) == 0  and  (a ^ b) == 0 *)
+Lemma land_lxor_distr a b c : Z.land (Z.lxor a b) c = Z.lxor (Z.land a c) (Z.land b c).
+Proof.
+  apply Z.bits_inj'. intros i Hi. rewrite Z.land_spec, !Z.lxor_spec, !Z.land_spec.
+  destruct (Z.testbit a i), (Z.testbit b i), (Z.testbit c i); reflexivity.
+Qed.
+Lemma lxor_eqb0 a b : (Z.lxor a b =? 0) = (a =? b).
+Proof.
+  destruct (Z.eqb_spec a b) as [->|N].
+  - rewrite Z.lxor_nilpotent. reflexivity.
+  - apply Z.eqb_neq. intro H. apply N. apply Z.lxor_eq. exact H.
+Qed.
+Lemma lxor_mod_pow2_eqb a b k : 0 <= k -> ((Z.lxor a b) mod 2 ^ k =? 0) = (a mod 2 ^ k =? b mod 2 ^ k).
+Proof.
+  intros Hk. rewrite <- !Z.land_ones by lia. rewrite land_lxor_distr. apply lxor_eqb0.
+Qed.
+Ltac norm_xor :=
+  repeat match goal with
+  | |- context [(Z.lxor ?a ?b) mod ?c =? 0] =>
+      closed_term c;
+      let k := eval vm_compute in (Z.log2 c) in
+      replace ((Z.lxor a b) mod c =? 0) with (a mod c =? b mod c)
+        by (symmetry; change c with (2 ^ k); apply lxor_mod_pow2_eqb; lia)
+  | |- context [Z.lxor ?a ?b =? 0] => rewrite (lxor_eqb0 a b)
+  end.
+
+(* (x mod n) mod n, and x mod n for a variable x known to be below n *)
+Ltac norm_mod :=
+  repeat rewrite Z.mod_mod by (timeout 10 lia);
+  repeat match goal with
+  | |- context [?x mod ?m] => is_var x; rewrite (Z.mod_small x m) by (timeout 10 lia)
+  end.
 
 (* x % c and x / c on non-negative values *)
 Ltac norm_rem :=
@@ -146,8 +182,9 @@ Ltac split_ifs :=
       cbn [negb andb orb]; cbv beta iota
   end.
 
-Ltac finish := first [ reflexivity | solve [exfalso; timeout 30 lia] | solve [split_eq; leaf_arith] ].
-Ltac decide_with CAP := unfold_leaf; norm_masks; norm_rem; norm_blkidx CAP; split_ifs; finish.
+Ltac norm_fill := repeat rewrite lfill_lfill_same.
+Ltac finish := norm_fill; first [ reflexivity | solve [exfalso; timeout 30 lia] | solve [split_eq; leaf_arith] ].
+Ltac decide_with CAP := unfold_leaf; norm_masks; norm_xor; norm_rem; norm_mod; norm_blkidx CAP; split_ifs; finish.
 
 (* the sweep: one goal per capacity, the capacity a numeral *)
 Ltac sweep tac :=
@@ -212,28 +249,28 @@ Definition ref_ring_alloc (a bs cap : Z) (hb hu : list Z) (ld1 ld2 : Z) :=
   if ld1 =? 0 then (a + 1, a1, bs, cap, hb, lset hu a 1)
   else let a2 := ring_next cap a1 in
        if ld2 =? 0 then (a1 + 1, a2, bs, cap, hb, lset hu a1 1)
-       else (-1, a2, bs, cap, hb, hu).
+       else (-1, ring_next cap a2, bs, cap, hb, hu).    (* the third load: the cursor has moved a third time *)
 Definition ref_ring_free (a bs cap : Z) (hb hu : list Z) (b : Z) := (0, a, bs, cap, hb, lset hu b 0).
 
 (* ====================================================================== *)
 (* generated = reference                                                   *)
 
 Lemma gen_ts_alloc_ref : forall cap, pow2cap cap -> forall a bs c f ptrs ld1 ld2 cur1 spur1 cur2 spur2,
-  u32 a -> u32 c -> u32 ld1 -> u32 ld2 -> u32 cur1 -> u32 cur2 ->
+  pos_in cap a -> pos_in cap c -> pos_in cap ld1 -> pos_in cap ld2 -> pos_in cap cur1 -> pos_in cap cur2 ->
   gen_ts_alloc a bs c cap f ptrs ld1 ld2 cur1 spur1 cur2 spur2 =
   ref_ts_alloc a bs c cap f ptrs ld1 ld2 cur1 spur1 cur2 spur2.
 Proof.
   Time sweep ltac:(unfold gen_ts_alloc, ref_ts_alloc, ts_iter, cas_ok, ring_next; decide_with 0).
 Qed.
 
-Lemma gen_ts_free_ref : forall cap, pow2cap cap -> forall a bs c f ptrs b, u32 f ->
+Lemma gen_ts_free_ref : forall cap, pow2cap cap -> forall a bs c f ptrs b, pos_in cap f ->
   gen_ts_free a bs c cap f ptrs b = ref_ts_free a bs c cap f ptrs b.
 Proof.
   Time sweep ltac:(unfold gen_ts_free, ref_ts_free, ring_next; decide_with 0).
 Qed.
 
 Lemma gen_sowr_alloc_ref : forall cap, pow2cap cap -> forall a bs c f hb ld, fits cap bs ->
-  u32 a -> u32 c -> u32 ld ->
+  u32 a -> pos_in cap c -> u32 ld ->
   gen_sowr_alloc a bs c cap f hb ld = ref_sowr_alloc a bs c cap f hb ld.
 Proof.
   Time sweep ltac:(unfold gen_sowr_alloc, ref_sowr_alloc, sowr_pos, sowr_bound; with_fits decide_with).
